@@ -230,7 +230,7 @@ def rand_tree(rng, tier, depth):
     sub = rand_tree(rng, tier, depth - 1)
     n = tree_dim(sub)
     if rule == 'lscal':
-        return ('lscal', rng.choice([0.5, 2.0, 3.0, 0.25, 1.0, 1.5]), sub)
+        return ('lscal', rng.choice([0.5, 2.0, 3.0, 0.25, 1.0, 1.5, 0.5, 2.0, -1.0, 0.0]), sub)
     if rule == 'rscal':
         return ('rscal', rng.choice([0.5, 2.0, -1.0, -0.5, 4.0, 1.0]), sub)
     if rule == 'ssum':
@@ -238,7 +238,7 @@ def rand_tree(rng, tier, depth):
     if rule == 'transl':
         return ('transl', vec(rng, n, lo=-6, hi=6), sub)
     if rule == 'qpert':
-        a = rng.choice([0.0, 0.5, 1.5, 4.0, 0.375, 12.0])
+        a = rng.choice([0.0, 0.5, 1.5, 4.0, 0.375, 12.0, 0.5, 1.5, -0.5])
         u = None if rng.random() < 0.3 else vec(rng, n, lo=-6, hi=6)
         return ('qpert', a, u, dy(rng), sub)
     return ('breg', vec(rng, n, lo=-6, hi=6), vec(rng, n, lo=-6, hi=6), sub)
@@ -295,7 +295,7 @@ def build(t):
         return S.SeparableSum(build(t[1]), build(t[2]))
     f = build(t[-1])
     if k == 'lscal':
-        return t[1] * f
+        return S.FunctionalLeftScalarMult(f, t[1]) if t[1] <= 0 else t[1] * f
     if k == 'rscal':
         return S.FunctionalRightScalarMult(f, t[1])
     if k == 'ssum':
@@ -335,7 +335,7 @@ def tree_code(t):
         return 'S.SeparableSum(%s, %s)' % (tree_code(t[1]), tree_code(t[2]))
     f = tree_code(t[-1])
     if k == 'lscal':
-        return '(%r * %s)' % (t[1], f)
+        return ('S.FunctionalLeftScalarMult(%s, %r)' % (f, t[1])) if t[1] <= 0 else '(%r * %s)' % (t[1], f)
     if k == 'rscal':
         return 'S.FunctionalRightScalarMult(%s, %r)' % (f, t[1])
     if k == 'ssum':
@@ -371,9 +371,11 @@ def coq_tree(t):
         return '(Leaf %s %s)' % (lk, w)
     if k == 'sep':
         return '(Sep %s %s)' % (coq_tree(t[1]), coq_tree(t[2]))
-    e = coq_tree(t[-1])
     if k == 'lscal':
-        return '(LScal %s %s)' % (C.q(t[1]), e)
+        # OperatorLeftScalarMult.__init__ merges a chain s1*(s2*f) into (s1*s2)*f; the model tree is the merged one
+        sc, inner = merged_lscal(t)
+        return '(LScal %s %s)' % (C.q(sc), coq_tree(inner))
+    e = coq_tree(t[-1])
     if k == 'rscal':
         return '(RScal %s %s)' % (C.q(t[1]), e)
     if k == 'ssum':
@@ -465,6 +467,28 @@ def err_enum(e):
     return 'EOther'
 
 
+def merged_lscal(t):
+    sc = 1.0
+    while t[0] == 'lscal':
+        sc *= t[1]
+        t = t[2]
+    return sc, t
+
+
+def has_bad_scalar(t):
+    """Trees whose .proximal raises by design (negative left scalar / quadratic coefficient) or is degenerate (0)."""
+    if t[0] == 'leaf':
+        return False
+    if t[0] == 'sep':
+        return has_bad_scalar(t[1]) or has_bad_scalar(t[2])
+    if t[0] == 'lscal':
+        sc, inner = merged_lscal(t)
+        return sc <= 0 or has_bad_scalar(inner)
+    if t[0] == 'qpert' and t[1] < 0:
+        return True
+    return has_bad_scalar(t[-1])
+
+
 def run_prox(fn):
     try:
         r = fn()
@@ -484,6 +508,7 @@ def kink_points(rng, n, step):
 
 
 def tree_cases(rng, tier):
+    import odl
     cs = C.CaseSet('trees', ['C07.Model', 'C07.Corr'], 'check_tree', 'tcase')
     ntrees = 140 if tier == 'quick' else 1400
     maxdepth = 3 if tier == 'quick' else 4
@@ -502,29 +527,50 @@ def tree_cases(rng, tier):
         except Skip:
             continue
         n = tree_dim(t)
-        for rep in range(2):
+        for rep in range(3):
+            conj = (rep == 2)          # third variant: FunctionalDefaultConvexConjugate(f).proximal (Moreau rule)
             step = rand_step(rng, t, allow_struct=(rep == 1))
-            x = kink_points(rng, n, step) if rng.random() < 0.3 else vec(rng, n)
+            if conj:
+                step = ('scal', pos(rng))
+            r = rng.random()
+            x = kink_points(rng, n, step) if r < 0.3 else ([0.0] * n if r < 0.36 else vec(rng, n))
             X = f.domain
             xe = unflatten(X, x)
-            try:
-                v = float(f(xe))
-                val = 'IVal %s' % C.oq(v) if not math.isnan(v) else 'IVSkip'
-            except Exception:
-                val = 'IVSkip'
-            out, _ = run_prox(lambda: f.proximal(impl_step(step, X))(xe))
-            term = ('{| t_e := %s; t_s := %s; t_x := %s; t_val := %s; t_prox := %s |}'
-                    % (term_e, coq_sig(step), C.qs(x), val, out))
-            desc = {'tree': tree_desc(t), 'step': step, 'x': x,
+            val = 'IVSkip'
+            if not conj:
+                try:
+                    v = float(f(xe))
+                    val = 'IVal %s' % C.oq(v) if not math.isnan(v) else 'IVSkip'
+                    # a point exactly on the boundary of an indicator's set: the 0/inf value is decided by rounding
+                    # (weights such as 1/3 are not dyadic) -- not compared
+                    near = [float(f(xe * (1 + 1e-9))), float(f(xe * (1 - 1e-9)))]
+                    if any(math.isfinite(u) != math.isfinite(v) for u in near):
+                        val = 'IVSkip'
+                except Exception:
+                    val = 'IVSkip'
+            alias = rng.random() < 0.25 and t[0] == 'leaf'   # in-place call with out aliased to x must give the same point
+
+            def call():
+                ff = odl.solvers.functional.functional.FunctionalDefaultConvexConjugate(f) if conj else f
+                op = ff.proximal(impl_step(step, X))
+                if alias:
+                    y = xe.copy()
+                    op(y, out=y)
+                    return y
+                return op(xe)
+            out, _ = run_prox(call)
+            term = ('{| t_e := %s; t_s := %s; t_x := %s; t_conj := %s; t_val := %s; t_prox := %s |}'
+                    % (term_e, coq_sig(step), C.qs(x), C.b(conj), val, out))
+            desc = {'tree': tree_desc(t), 'step': step, 'x': x, 'default_convex_conj': conj, 'aliased': alias,
                     'python': 'f = %s; f.proximal(%s)(unflatten(f.domain, %r))'
                               % (tree_code(t), step_code(step, 'f.domain'), x)}
-            cs.add(term, desc, (tree_desc(t), repr(step), tuple(x)) if any(x) else None)
+            cs.add(term, desc, (tree_desc(t), repr(step), tuple(x), conj) if any(x) else None)
         made += 1
     return cs
 
 
 # ------------------------------------------------------------ factories
-def rand_factory(rng, tier, depth, sp=None):
+def rand_factory(rng, tier, depth, sp=None, top=True):
     """Returns (python_builder(space)->factory, coq_term, desc, Sp, vec_ok)."""
     import odl
     P = odl.solvers.nonsmooth.proximal_operators
@@ -534,8 +580,8 @@ def rand_factory(rng, tier, depth, sp=None):
     if depth > 0 and rng.random() < 0.6:
         rule = rng.choice(['transl', 'argscal', 'quad', 'conj'] + ([] if forced else ['combine', 'compose']))
         if rule == 'combine':
-            b1, c1, d1, sp1, v1 = rand_factory(rng, tier, depth - 1)
-            b2, c2, d2, sp2, v2 = rand_factory(rng, tier, depth - 1)
+            b1, c1, d1, sp1, v1 = rand_factory(rng, tier, depth - 1, top=False)
+            b2, c2, d2, sp2, v2 = rand_factory(rng, tier, depth - 1, top=False)
             spc = Sp('odl.ProductSpace(%s, %s)' % (sp1.code, sp2.code))
             return ((lambda: P.combine_proximals(b1(), b2())),
                     '(KCombine %s %s %s)' % (nat(sp1.n), c1, c2), 'combine(%s, %s)' % (d1, d2), spc, v1 and v2)
@@ -543,7 +589,7 @@ def rand_factory(rng, tier, depth, sp=None):
             # A : rn(n) -> rn(k) with A A^T = mu I  (scaled signed selection / Hadamard-like rows)
             k = rng.choice([1, 2])
             base = Sp('odl.rn(%d)' % k)
-            b, c, d, _, v = rand_factory(rng, tier, depth - 1, sp=base)
+            b, c, d, _, v = rand_factory(rng, tier, depth - 1, sp=base, top=False)
             ncols = rng.choice([2, 3, 4]) if k == 1 else rng.choice([2, 4])
             if k == 1:
                 row = [rng.choice([-1.0, 1.0, 2.0, 0.5]) for _ in range(ncols)]
@@ -563,7 +609,7 @@ def rand_factory(rng, tier, depth, sp=None):
                 return P.proximal_composition(b(), op, mu)
             return (mk, '(KCompose %s %s %s %s)' % (nat(ncols), C.qss(A), C.q(mu), c),
                     'compose(A=%r, mu=%r, %s)' % (A, mu, d), dom, False)
-        b, c, d, sp, v = rand_factory(rng, tier, depth - 1, sp=sp)
+        b, c, d, sp, v = rand_factory(rng, tier, depth - 1, sp=sp, top=False)
         n = sp.n
         if rule == 'transl':
             y = vec(rng, n, lo=-6, hi=6)
@@ -574,7 +620,7 @@ def rand_factory(rng, tier, depth, sp=None):
             return ((lambda: P.proximal_arg_scaling(b(), s)), '(KArgScal %s %s)' % (C.q(s), c),
                     'argscal(%r, %s)' % (s, d), sp, v and s != 0 or s == 0)
         if rule == 'quad':
-            a = rng.choice([0.0, 0.5, 1.5, 4.0, 12.0, 0.375])
+            a = rng.choice([0.0, 0.5, 1.5, 4.0, 12.0, 0.375, -1.0])
             u = None if rng.random() < 0.4 else vec(rng, n, lo=-6, hi=6)
             return ((lambda: P.proximal_quadratic_perturbation(b(), a, None if u is None else sp.el(u))),
                     '(KQuad %s %s %s)' % (C.q(a), coq_opt_vec(u), c), 'quad(%r, %r, %s)' % (a, u, d), sp, False)
@@ -582,7 +628,10 @@ def rand_factory(rng, tier, depth, sp=None):
             return ((lambda: P.proximal_convex_conj(b())), '(KConj %s)' % c, 'conj(%s)' % d, sp, False)
     n = sp.n
     X = sp.space
-    kinds = ['l1', 'ccl1', 'l2', 'ccl2', 'l2sq', 'ccl2sq', 'linf', 'cclinf', 'box', 'const', 'cckl']
+    kinds = ['l1', 'ccl1', 'l2', 'ccl2', 'l2sq', 'ccl2sq', 'linf', 'cclinf', 'box', 'const', 'cckl',
+             'nonneg', 'kl', 'klcc']
+    if top:
+        kinds += ['projsimplex', 'projl1']        # plain functions, not operators: only called directly
     if 'weighting=[' not in sp.code:
         kinds.append('huber')
     if not forced:
@@ -618,9 +667,35 @@ def rand_factory(rng, tier, depth, sp=None):
     if kind == 'box':
         lo = rng.choice([None, dy(rng, -8, 0), [dy(rng, -8, 0) for _ in range(n)]])
         hi = rng.choice([None, dy(rng, 0, 8), [dy(rng, 0, 8) for _ in range(n)]])
-        return ((lambda: P.proximal_box_constraint(X, sp.el(lo) if isinstance(lo, list) else lo,
-                                                   sp.el(hi) if isinstance(hi, list) else hi)),
+        if isinstance(lo, float) and isinstance(hi, float) and rng.random() < 0.15:
+            lo, hi = hi + 1.0, lo            # inverted scalar bounds: ValueError at construction
+        aslist = rng.random() < 0.3 and len(sp.space.shape) == 1   # array-like bounds are converted by the factory
+
+        def bnd(v):
+            if isinstance(v, list):
+                return v if aslist else sp.el(v)
+            return v
+        return ((lambda: P.proximal_box_constraint(X, bnd(lo), bnd(hi))),
                 '(KBox %s %s)' % (coq_bound(lo), coq_bound(hi)), 'box(%r,%r)@%s' % (lo, hi, sp.code), sp, False)
+    if kind == 'nonneg':
+        return ((lambda: P.proximal_nonnegativity(X)), '(KBox (BScal 0) BNone)', 'nonneg@%s' % sp.code, sp, False)
+    if kind == 'projsimplex':
+        d = rng.choice([1.0, 2.0, 0.5, 3.0])
+        return ((lambda: (lambda sigma: (lambda x: P.proj_simplex(x, d)))), '(KProjSimplex %s)' % C.q(d),
+                'proj_simplex(d=%r)@%s' % (d, sp.code), sp, False)
+    if kind == 'projl1':
+        r = rng.choice([1.0, 2.0, 0.5, 3.0])
+        return ((lambda: (lambda sigma: (lambda x: P.proj_l1(x, r)))), '(KProjL1 %s)' % C.q(r),
+                'proj_l1(r=%r)@%s' % (r, sp.code), sp, False)
+    if kind in ('kl', 'klcc'):
+        g = None if g is None else [abs(v) + 0.25 for v in g]
+        ge = (lambda: None) if g is None else (lambda: sp.el(g))
+        if kind == 'kl':       # KullbackLeibler.proximal = proximal_convex_conj(proximal_convex_conj_kl(g=prior))
+            return ((lambda: odl.solvers.KullbackLeibler(X, ge()).proximal),
+                    '(KConj (KCCKL 1 %s))' % coq_opt_vec(g), 'KullbackLeibler(prior=%r).proximal@%s' % (g, sp.code), sp, False)
+        return ((lambda: odl.solvers.KullbackLeibler(X, ge()).convex_conj.proximal),
+                '(KCCKL 1 %s)' % coq_opt_vec(g), 'KullbackLeibler(prior=%r).convex_conj.proximal@%s' % (g, sp.code),
+                sp, False)
     if kind == 'const':
         return ((lambda: P.proximal_const_func(X)), 'KConstF', 'const@%s' % sp.code, sp, False)
     if kind == 'huber':
@@ -646,24 +721,34 @@ def rand_factory(rng, tier, depth, sp=None):
             'cckl(lam=%r,g=%r)@%s' % (lam, g, sp.code), sp, False)
 
 
+ATOMIC = ('l1', 'ccl1', 'l2', 'ccl2', 'l2sq', 'ccl2sq', 'linf', 'cclinf', 'box', 'const', 'cckl', 'huber', 'l1l2', 'ccl1l2',
+          'nonneg@odl.rn', 'nonneg@odl.uniform_discr')
+
+
 def factory_cases(rng, tier):
     cs = C.CaseSet('factories', ['C07.Model', 'C07.Corr'], 'check_fac', 'fcase')
     n_f = 160 if tier == 'quick' else 1600
     for i in range(n_f):
         mk, term_f, desc_f, sp, vec_ok = rand_factory(rng, tier, rng.choice([0, 0, 1, 1, 2]))
-        try:
-            fac = mk()
-        except Exception as e:   # factory construction itself may raise (e.g. a < 0): not generated here
-            raise
         n = sp.n
         for rep in range(2):
             if vec_ok and rng.random() < 0.4:
                 step = ('vec', [pos(rng) for _ in range(n)])
             else:
                 step = ('scal', pos(rng))
-            x = kink_points(rng, n, step) if rng.random() < 0.3 else vec(rng, n)
+            r = rng.random()
+            x = kink_points(rng, n, step) if r < 0.3 else ([0.0] * n if r < 0.36 else vec(rng, n))
             xe = sp.el(x)
-            out, _ = run_prox(lambda: fac(impl_step(step, sp.space))(xe))
+            alias = rng.random() < 0.25 and 'proj_' not in desc_f and '(' not in desc_f.split('@')[0].split('(')[0] and desc_f.split('(')[0] in ATOMIC
+
+            def call():
+                op = mk()(impl_step(step, sp.space))     # construction errors (a < 0, lower > upper) count as the outcome
+                if alias:
+                    y = xe.copy()
+                    op(y, out=y)
+                    return y
+                return op(xe)
+            out, _ = run_prox(call)
             term = '{| f_f := %s; f_s := %s; f_x := %s; f_out := %s |}' % (term_f, coq_sig(step), C.qs(x), out)
             cs.add(term, {'factory': desc_f, 'step': step, 'x': x},
                    (desc_f, repr(step), tuple(x)) if any(x) else None)
@@ -907,6 +992,8 @@ def probes(rng, tier):
     made = 0
     while made < ntrees:
         t = rand_tree(rng, tier, rng.randint(1, 3))
+        if has_bad_scalar(t):
+            continue
         try:
             build(t)
             coq_tree(t)
@@ -1024,6 +1111,8 @@ def probes(rng, tier):
     # 5. consequences: firm non-expansiveness; indicator proximals land in the set and are idempotent
     for _ in range(ntrees // 2):
         t = rand_tree(rng, tier, rng.randint(0, 2))
+        if has_bad_scalar(t):
+            continue
         try:
             f = build(t)
             coq_tree(t)
